@@ -397,3 +397,142 @@ _run_c08b = run
 def run(ctx):  # noqa: F811
     _run_c08b(ctx)
     r08_6(ctx, ctx.model)
+
+
+def r08_7(ctx, m):
+    """a quantity asked for a subset of the sub-domains is built from those sub-domains only"""
+    ctx.rule("R08.7", "DomainTuple.scalar_weight(spaces) / total_volume(spaces): every returned value is built from self._dom[i] for "
+                      "the requested i only - no aggregate of the whole tuple (size, shape, axes) enters it (the volume of a "
+                      "sub-selection is not pixel weight times the pixel count of the full tuple)", floor=4)
+    C = m.cls(*DT)
+    for name in ("scalar_weight", "total_volume"):
+        fi = C.methods.get(name)
+        if fi is None:
+            ctx.und("R08.7", f"{C.key}::{name}", "method missing", C)
+            continue
+        ctx.saw_func(fi)
+        for r in walk_no_nested(fi.node):
+            if not isinstance(r, ast.Return) or r.value is None:
+                continue
+            # names feeding the return value (flow-insensitive backward slice over the function's assignments)
+            feeds, work = set(), [r.value]
+            seen_names = set()
+            while work:
+                e = work.pop()
+                for x in ast.walk(e):
+                    if isinstance(x, ast.Attribute) and src(x.value) == "self":
+                        feeds.add(x.attr)
+                    if isinstance(x, ast.Name) and x.id not in seen_names:
+                        seen_names.add(x.id)
+                        for st in walk_no_nested(fi.node):
+                            if isinstance(st, (ast.Assign, ast.AugAssign)) and any(isinstance(t, ast.Name) and t.id == x.id
+                                                                                   for t in ast.walk(st.targets[0] if isinstance(st, ast.Assign) else st.target)):
+                                work.append(st.value)
+            whole = sorted(a for a in feeds if a.lstrip("_") in ("size", "shape", "axes", "axtuple", "local_shape") or a in ("__len__",))
+            ctx.check("R08.7", f"{fi.key}::`{short(r, 50)}` uses the requested sub-domains only", not whole,
+                      f"reads self.{whole[0]}, an aggregate over ALL sub-domains" if whole else None, fi, r)
+
+
+def r08_8(ctx, m, subs):
+    """shared caches of derived quantities are keyed by everything the cached value depends on"""
+    ctx.rule("R08.8", "class-level caches in domain classes: for every store CACHE[key] = value inside a method, the inputs the value "
+                      "is computed from (parameters and self attributes, through the local assignments) are a subset of the inputs "
+                      "of the key - otherwise an equal-keyed but different domain gets another domain's numbers", floor=1)
+    n_found = 0
+    for C in subs:
+        caches = {k for k, v in C.consts.items() if isinstance(v, (ast.Dict,)) or (isinstance(v, ast.Call) and src(v.func) in ("dict", "OrderedDict"))}
+        if not caches:
+            continue
+        for name, fi in sorted(C.methods.items()):
+            params = set(fi.params()[1:])
+            assigns = {}
+            for st in walk_no_nested(fi.node):
+                if isinstance(st, ast.Assign):
+                    for t in st.targets:
+                        for x in ast.walk(t):
+                            if isinstance(x, ast.Name) and isinstance(x.ctx, ast.Store):
+                                assigns.setdefault(x.id, []).append(st.value)
+                elif isinstance(st, ast.AugAssign) and isinstance(st.target, ast.Name):
+                    assigns.setdefault(st.target.id, []).append(st.value)
+                elif isinstance(st, ast.For):
+                    for x in ast.walk(st.target):
+                        if isinstance(x, ast.Name):
+                            assigns.setdefault(x.id, []).append(st.iter)
+
+            def inputs(e):
+                out, work, seen = set(), [e], set()
+                while work:
+                    q = work.pop()
+                    for x in ast.walk(q):
+                        if isinstance(x, ast.Attribute) and src(x.value) == "self" and x.attr not in caches:
+                            out.add(x.attr.lstrip("_"))
+                        elif isinstance(x, ast.Name) and x.id not in seen:
+                            seen.add(x.id)
+                            if x.id in params and x.id not in assigns:
+                                out.add(x.id.lstrip("_"))
+                            elif x.id in params:
+                                out.add(x.id.lstrip("_"))
+                                work.extend(assigns[x.id])
+                            elif x.id in assigns:
+                                work.extend(assigns[x.id])
+                return out
+            for st in walk_no_nested(fi.node):
+                if isinstance(st, ast.Assign) and isinstance(st.targets[0], ast.Subscript) and isinstance(st.targets[0].value, ast.Attribute) \
+                        and st.targets[0].value.attr in caches:
+                    n_found += 1
+                    ctx.saw_func(fi)
+                    kin, vin = inputs(st.targets[0].slice), inputs(st.value)
+                    extra = sorted(vin - kin)
+                    ctx.check("R08.8", f"{fi.key}::{st.targets[0].value.attr}[{short(st.targets[0].slice, 30)}] is keyed by all inputs of its value",
+                              not extra, f"value depends on {sorted(vin)}, key only on {sorted(kin)}: {extra} missing from the key", fi, st)
+    if not n_found:
+        ctx.und("R08.8", "nifty/cl/domains::class-level cache stores", "none found", "nifty/cl/domains")
+
+
+def r08_9(ctx, m):
+    """LMSpace: unique k-lengths = the l values of the m=0 block of the k-length table"""
+    from ..terms import canon
+    ctx.rule("R08.9", "LMSpace: get_k_length_array fills its leading (m = 0) block with arange(B) and get_unique_k_lengths returns "
+                      "arange(B') with the same bound B' = B = lmax + 1 - the table contains every l from 0 to lmax, whatever mmax is", floor=1)
+    C = m.cls("nifty.cl.domains.lm_space", "LMSpace")
+    ka, uk = C.methods.get("get_k_length_array"), C.methods.get("get_unique_k_lengths")
+    if ka is None or uk is None:
+        ctx.error("R08.9: LMSpace k-length methods missing")
+        return
+    ctx.saw_func(ka)
+    ctx.saw_func(uk)
+
+    def norm_bound(e, fi):
+        # inline plain local aliases of attributes and the trivial properties lmax/mmax
+        loc = {src(st.targets[0]): st.value for st in walk_no_nested(fi.node) if isinstance(st, ast.Assign) and isinstance(st.targets[0], ast.Name)
+               and isinstance(st.value, ast.Attribute)}
+        t = src(e)
+        for k, v in loc.items():
+            t = __import__("re").sub(rf"\b{k}\b", src(v), t)
+        t = t.replace("self.lmax", "self._lmax").replace("self.mmax", "self._mmax")
+        return canon(ast.parse(t, mode="eval").body, add=True)
+    first = None
+    for st in walk_no_nested(ka.node):
+        if isinstance(st, ast.Assign) and isinstance(st.targets[0], ast.Subscript) and isinstance(st.targets[0].slice, ast.Slice) \
+                and st.targets[0].slice.lower is not None and src(st.targets[0].slice.lower) == "0" and st.targets[0].slice.step is None \
+                and isinstance(st.value, ast.Call) and call_name(st.value) == "arange" and st.value.args:
+            first = st
+    rets = [r for r in walk_no_nested(uk.node) if isinstance(r, ast.Return)]
+    key = f"{uk.key}::arange bound equals the bound of the table's m=0 block"
+    if first is None or len(rets) != 1 or not (isinstance(rets[0].value, ast.Call) and call_name(rets[0].value) == "arange" and rets[0].value.args):
+        ctx.und("R08.9", key, "shape not recognised", uk)
+        return
+    b_tab, b_uni = norm_bound(first.value.args[0], ka), norm_bound(rets[0].value.args[0], uk)
+    ctx.check("R08.9", key, b_tab == b_uni, f"table block: arange({b_tab}); unique: arange({b_uni})", uk, rets[0])
+
+
+_run_c08c = run
+
+
+def run(ctx):  # noqa: F811
+    _run_c08c(ctx)
+    m = ctx.model
+    Dom = m.cls(*DOM)
+    r08_7(ctx, m)
+    r08_8(ctx, m, [c for c in m.subclasses(Dom) if not c.local])
+    r08_9(ctx, m)
